@@ -23,18 +23,7 @@ def mods():
     return b, c
 
 
-def wrap(fn):
-    def inner(self, w, op):
-        try:
-            r = fn(self, w, op)
-        except (graphwalk.Timeout, Unexpected):
-            raise
-        except Exception as e:
-            raise Unexpected("%s raised %s: %s" % (op["op"], type(e).__name__, str(e)[:80]))
-        if r is None:
-            raise tlc.MachineryError("adapter: unknown op %r" % (op,))
-        return r
-    return inner
+wrap = graphwalk.wrap
 
 
 def serial(v):
